@@ -257,9 +257,46 @@ def run(ctx):
     # R11.10: "raises SchemaError and nothing else": no message built with candidate data in the template position
     from .c03 import rule_no_data_templates
     rule_no_data_templates(ctx, "R11.10")
+    # R11.14: check_schema raises SchemaError or returns: the metaschema walk pushes a scope per nesting level of the candidate, and
+    # nothing on that path may turn depth (or anything but an unresolvable reference) into RefResolutionError
+    from . import scope
+    scope.rule_who_raises_ref_error(ctx, "R11.14")
+    rule_meta_keys_known(ctx)
     try:
         from .c03 import rule_metaschema_shapes
     except ImportError:
         rule_metaschema_shapes = None
     if rule_metaschema_shapes is not None:
         rule_metaschema_shapes(ctx, "R11.4")
+
+
+ANNOTATIONS = {"$schema", "id", "$id", "title", "description", "default", "definitions", "examples", "$comment", "format", "readOnly", "$ref"}
+
+
+def rule_meta_keys_known(ctx, rid="R11.15"):
+    """A bundled metaschema is itself a schema of its draft: a member name at a subschema position that the draft's class has no
+    keyword for (and that is not an annotation) constrains nothing -- `additionalProperites: {"$ref": "#"}` silently lets
+    every value through where the draft meant subschemas only."""
+    prog = ctx.prog
+    r = ctx.rule(rid, "at every subschema position of each bundled metaschema every member name is a keyword of that draft's class or an annotation", floor=4)
+    for d in DRAFTS:
+        dr = prog.tables.drafts[d]
+        # keywords of the class, annotations, and the members a keyword function reads next to itself (then/else; in Drafts 3/4 the
+        # boolean exclusiveMinimum / exclusiveMaximum modifiers)
+        known = set(dr.table) | ANNOTATIONS | {"then", "else"} | ({"exclusiveMinimum", "exclusiveMaximum"} if d in ("draft3", "draft4") else set())
+        bad = []
+        n = [0]
+
+        def visit(path, sub):
+            n[0] += 1
+            for k in sub:
+                if k not in known:
+                    bad.append((path, k))
+        _walk_schema_positions(dr.meta, d, visit)
+        where = "jsonschema/schemas/%s.json" % d
+        if not bad:
+            r.ok(where, "%d subschema positions, every member name known to the %s class" % (n[0], d))
+        for path, k in bad[:5]:
+            r.fail("%s|unknown-member|%s|%s" % (d, path, k), where + path,
+                   "%s%s has a member %r that is neither a %s keyword nor an annotation: it constrains nothing (a misspelt keyword lets every value through)" % (where, path, k, d))
+    return r
